@@ -234,8 +234,10 @@ def write_evidence(prop, tier, seed, level, coverage, wall, nviol, assumptions):
         pass
     except FileNotFoundError:
         pass
-    os.makedirs(os.path.join(VERIF, "evidence"), exist_ok=True)
-    path = os.path.join(VERIF, "evidence", f"{prop}.json")
+    # (calibration runs against seeded faults write elsewhere: evidence must describe the real tree only)
+    evdir = os.environ.get("VERIF_EVIDENCE_DIR", os.path.join(VERIF, "evidence"))
+    os.makedirs(evdir, exist_ok=True)
+    path = os.path.join(evdir, f"{prop}.json")
     tmp = path + ".tmp"
     with open(tmp, "w") as f:
         json.dump(ev, f, indent=1)
@@ -320,7 +322,7 @@ def parent(args):
     # ---- replays for unlisted violations (deduplicated by key)
     replay_paths = []
     seen_keys = set()
-    rdir = os.path.join(VERIF, "replays", args.prop)
+    rdir = os.path.join(os.environ.get("VERIF_REPLAY_DIR", os.path.join(VERIF, "replays")), args.prop)
     for v in unlisted:
         k = json.dumps(v["key"], sort_keys=True)
         if k in seen_keys:
